@@ -310,7 +310,7 @@ func handles(cfg fw.Config, rec *fw.Rec) {
 
 func Run(cfg fw.Config, rec *fw.Rec) {
 	rec.Rule = "three-node action chains start->n1->n2->done; each action is 'emit k unique ids, mutate, fail by f [, emit again]' for k in 0..4 and f in {none, throw, infinite loop under a deadline, return number/string/array/function/NaN/bool, _.out(unserialisable), _.out(NaN)}; branches optionally guarded by guards that emit and then accept / reject / fail, also 2-7 rejecting emitting guards or 5-12 non-matching branches before the branch that is followed; 3 error settings; observed through Stride.Emitted, Walked.DoEmitted and sio.Crew Result.Emitted (one machine, and two machines with different emissions processing one message: one batch per machine; and a machine on a ring of emitting action nodes under crew step limits 1-8, so that walks are cut short and later messages find it resting at an action node); emitted messages carry payload keys that mean something to a host or a service machine (emit, update, makeTimer) but are addressed to nobody; the observed id sequence must equal the ids of the reference's successfully completed actions in execution order; non-trivial = chain in which some action emitted and some action or guard failed or rejected; distinct by chain description"
-	rec.Required = []string{"walk_checked", "crew_checked", "crew_two_machines_checked", "crew_walks_cut_short_by_the_limit_checked", "emitted_messages_immune_to_later_changes", "failure_after_emit", "failure_timeout", "failure_bad_return", "failure_out_unserialisable", "guard_emitted_nothing", "several_rejecting_guards_before_followed_branch", "many_branches_before_followed_branch", "position_first", "position_middle", "position_last"}
+	rec.Required = []string{"emissions_reported_although_a_later_action_of_the_run_timed_out", "walk_checked", "crew_checked", "crew_two_machines_checked", "crew_walks_cut_short_by_the_limit_checked", "emitted_messages_immune_to_later_changes", "failure_after_emit", "failure_timeout", "failure_bad_return", "failure_out_unserialisable", "guard_emitted_nothing", "several_rejecting_guards_before_followed_branch", "many_branches_before_followed_branch", "position_first", "position_middle", "position_last"}
 	rec.Assume = []string{"a timed-out action is the last one executed in its walk (later actions under an expired context may legitimately either run or time out)"}
 	type job struct {
 		ks      []int
@@ -572,5 +572,6 @@ func Run(cfg fw.Config, rec *fw.Rec) {
 		}
 	})
 	limitedCrew(cfg, rec)
+	emissionsSurviveALaterTimeout(rec)
 	handles(cfg, rec)
 }
